@@ -5,6 +5,7 @@ import DSV.Lemmas.Outcome
 import DSV.Lemmas.Tally
 import DSV.Lemmas.AggsFun
 import DSV.Props.C11
+import DSV.Props.C14Observe
 /-!
 # C02 — LLO numeric aggregates and the outcome timestamp stay within the honest range
 
@@ -408,5 +409,10 @@ example : ([some (SV.dec ⟨1, 0⟩), none, some (SV.dec ⟨2, 0⟩)] : List (Op
     (∀ h ∈ [SV.dec ⟨1, 0⟩, SV.dec ⟨2, 0⟩], h.type = 0) := by
   refine ⟨?_, by decide, by decide⟩
   exact List.Perm.cons _ (List.Perm.swap _ _ _)
+
+/-- the timestamp a correct node contributes is its own clock reading (whole `observation()` model) -/
+theorem honest_ts_is_clock (env : Env) (cfg : Cfg) (seqNr : Nat) (prev : Outcome) (nd : Node) (o : Obs)
+    (h : observation env cfg seqNr prev nd = .ok (some o)) : (o.ts : Int) = nd.now :=
+  (C14.honest_observation_shape env cfg seqNr prev nd o h).1
 
 end DSV.Props.C02
